@@ -14,6 +14,7 @@ Tie:   accumulation chains built term by term through the API, n in {399, 400, 4
        both traversals forced from outside give identical trees; no RecursionError."""
 from __future__ import annotations
 
+import os
 import random
 import sys
 import warnings
@@ -88,6 +89,17 @@ def base_terms(kind, n, pool, r):
             out.append(v ** (i % 2) + (v + 1) ** 1)
         elif kind == "cdiv":
             out.append(2 / (v + 3))
+        elif kind == "cexpr_r":
+            # a constant-valued EXPRESSION (never a bare literal) as the RIGHT factor / divisor of a non-constant left operand
+            cr = [lambda: gen.Constant(2.0) * 3 - 1, lambda: -gen.Constant(2.0), lambda: gen.Constant(3.0) / 2, lambda: gen.Constant(0.5) * 0.5,
+                  lambda: gen.Constant(2.0) ** 2, lambda: gen.Constant(1.5) + 0][i % 6]()
+            out.append(v * cr if i % 4 else (v + 1) * cr + 2 * v)
+        elif kind.startswith("focused:"):
+            # one member of the focused corpus (every reduction / leaf kind under every one-node context), the same object n times
+            if not out:
+                g_ = gen.Gen(r, profile="poly", pool=pool)
+                base_terms.focused = g_.focused(int(kind[8:]))
+            out.append(base_terms.focused)
         elif kind == "cexpr":
             out.append((gen.Constant(2.0) * 3 - 1) * v + gen.Constant(2.0) ** 3)
         elif kind.startswith("fn:"):
@@ -120,7 +132,11 @@ def run(rep: vk.Report):
             n = rng.choice(shallow_sizes)
             plan.append((kind, op, n, rng.choice(["left", "balanced"])))
     # term kinds that exercise each rule of the degree analysis and the call-time reading of parameters, right at the switch depth
-    for kind in ["param", "divc", "negpow", "fracpow", "pow01", "cdiv", "cexpr", "clones", "distinct", "expvar", "varpow"]:
+    probe_ = gen.Gen(random.Random(0), profile="poly", pool=gen.Pool(random.Random(0), with_matrices=False))
+    fsize = probe_.focused_size()
+    focus_ids = sorted(random.Random(rng.random()).sample(range(fsize), min(fsize, 14 if quick else 160)))
+    for kind in ["param", "divc", "negpow", "fracpow", "pow01", "cdiv", "cexpr", "cexpr_r", "clones", "distinct", "expvar", "varpow"] + \
+            [f"focused:{i_}" for i_ in focus_ids]:
         for op, n in ([("+", 401), ("-", 400)] if quick else [("+", 399), ("+", 400), ("+", 401), ("-", 400), ("-", 900), ("*", 401)]):
             plan.append((kind, op, n, "left" if op != "+" or quick else rng.choice(["left", "balanced"])))
     for kind in (["lin", "vec", "fn:atan", "fn:log2"] if quick else ["lin", "var", "sq", "vec", "fn:sin", "fn:atan", "fn:log2"]):
@@ -216,6 +232,8 @@ def run(rep: vk.Report):
             rep.violation({"kind": "exception", "obligation": "every operator / function / vector node supported on shallow trees is supported on deep ones",
                            "step": step, "witness": {"base": kind, "op": op, "n": n, "association": assoc, "error": repr(ex)[:300]}}, concrete=True)
             continue
+        if os.environ.get("VERIF_DEBUG_C15"):
+            print("DEBUG", kind, op, n, assoc, {sh_: o_["degree"] for sh_, o_ in obs.items()}, file=sys.stderr)
         # shapes agree with each other
         ref = obs["left"]
         for sh, o in obs.items():
